@@ -38,10 +38,17 @@ type Case struct {
 }
 
 func genCase(t *rapid.T) Case {
+	c := Case{Updates: genUpdates(t)}
+	c.OrderA = genOrder(t, len(c.Updates), "A")
+	c.OrderB = genOrder(t, len(c.Updates), "B")
+	return c
+}
+
+// genUpdates samples updates from a consistent world per shard: term -> at most one leader, config-change index -> one membership.
+func genUpdates(t *rapid.T) []Update {
 	nShards := rapid.IntRange(1, 3).Draw(t, "shards")
-	c := Case{}
+	var out []Update
 	for s := 1; s <= nShards; s++ {
-		// a consistent world: term -> at most one leader, config-change index -> one membership
 		nTerms := rapid.IntRange(1, 6).Draw(t, "terms")
 		leaders := make([]uint64, nTerms+1)
 		for term := 1; term <= nTerms; term++ {
@@ -66,12 +73,10 @@ func genCase(t *rapid.T) Case {
 			if rapid.IntRange(0, 3).Draw(t, "leaderUnknown") == 0 {
 				leader = 0 // this node has not learnt the leader of the term (yet)
 			}
-			c.Updates = append(c.Updates, Update{Shard: uint64(10000 + s), Term: uint64(term), Leader: leader, CCI: uint64(cci), Replicas: members[cci]})
+			out = append(out, Update{Shard: uint64(10000 + s), Term: uint64(term), Leader: leader, CCI: uint64(cci), Replicas: members[cci]})
 		}
 	}
-	c.OrderA = genOrder(t, len(c.Updates), "A")
-	c.OrderB = genOrder(t, len(c.Updates), "B")
-	return c
+	return out
 }
 
 // genOrder draws a delivery schedule that delivers every update at least once (plus repeats).
